@@ -22,6 +22,11 @@ WORDS = {
     "axis": dict(alignment="axis"),
     "axis+stable": dict(alignment="axis", stable="all"),
     "bwff": dict(dynamics="bwff"),
+    "bw": dict(dynamics="bw"),
+    "bwff+": dict(dynamics="bwff"),  # same configuration as bwff; a second spelling so that it can be the reference of its own group
+    "bwsff": dict(dynamics="bwsff"),
+    "bwedw": dict(dynamics="bwedw"),
+    "nodynff": dict(dynamics="nodynff"),
     "couplings": dict(helicity_couplings=True),
     "stable": dict(stable="all"),
     "scalar": dict(scalar_initial_mass=True),
